@@ -100,3 +100,11 @@ Proof.
     + exfalso. eapply Nc; eauto.
     + inversion El; subst. f_equal. apply IH. exact T2.
 Qed.
+
+(* the support library's decoder against the grammar, without the HTML clause *)
+Lemma booster_decode_spec l c r : booster_decode l = (Cp c, r) <-> exists e, Seq e c /\ l = e ++ r.
+Proof.
+  unfold booster_decode. rewrite (next_spec Incomplete false l c r not_cp_Incomplete). split.
+  - intros (e & S & E & _). exists e. auto.
+  - intros (e & S & E). exists e. split; [exact S|]. split; [exact E|discriminate].
+Qed.
